@@ -400,6 +400,8 @@ again:
 		}
 		return ident(s);
 	case EOF:
+		if (ferror(s->file))
+			fatal("read %s:", s->loc.file);
 		return TEOF;
 	default:
 		if (isdigit(s->chr))
